@@ -438,7 +438,8 @@ class DataFile:
     if not self.is_in_extension:
       self.tti_tf = b''
 
-    self.tti_tf += tti.TF.strip(b'\x8f')
+    # the text ends at the first unused space (0x8F) byte
+    self.tti_tf += tti.TF.partition(b'\x8f')[0]
 
     is_double_height_characters = tf.has_double_height_char(self.tti_tf)
 
